@@ -322,3 +322,36 @@ def _(c):
     c.ensures("near(result, from_kelvin(target, to_kelvin(tu, x * y if how == 'mul' else x / y)), 1000)", "standard-affine-formula")
     c.ensures("r.baseunits.expression == tu", "the-operand-is-a-plain-temperature")
     c.no_raise()
+
+
+# ---- the conversions do not depend on custom-unit scopes that came and went: a scope whose unit names one of the built-in
+#      conversion classes (as the library's own table does) leaves the dispatch to those classes as it was ----------------------------
+UE = "units/unit_environment.py::UnitEnvironment"
+BUILTIN_TYPES = {"level": "units/unit_types.py::LogarithmicUnitType", "temperature": "units/unit_types.py::TemperatureUnitType"}
+AFTER_SCOPE = [("dB", "PR", "pow10(x / 10)"), ("Cel", "K", "x + 273.15"), ("dBm", "mW", "pow10(x / 10)"), ("degF", "K", "(x + 459.67) * 5 / 9")]
+
+
+@contract(Q + ".value", ["C05"], name="Quantity.value[after-a-scope-naming-a-built-in-conversion-type]")
+def _(c):
+    c.bound = "one scope with one custom unit defined by a built-in conversion class; closed by close(), by leaving a with-block, or never opened because the registration failed"
+    for kind, tname in BUILTIN_TYPES.items():
+        for how in ("closed", "with-block-left", "registration-failed", "still-open"):
+            for ua, ub, formula in AFTER_SCOPE:
+                def pre(bd, tname=tname, how=how, ua=ua, ub=ub, formula=formula):
+                    units = {"xq1": bd.dict(dict(magnitude=2.0, dimensions=bd.list([0, 0, 0, 0, 0, 0, 0, 0]), definition=bd.glob(tname)))}
+                    if how == "registration-failed":
+                        units["m"] = bd.dict(dict(magnitude=1.0, dimensions=bd.list([1, 0, 0, 0, 0, 0, 0, 0])))
+                        e, exc = bd.call_catching(bd.cls(UE), bd.dict(units))
+                        bd.assume(exc is not None)
+                    else:
+                        e = bd.new(UE, bd.dict(units))
+                        if how == "closed":
+                            bd.call(bd.getattr(e, "close"))
+                        elif how == "with-block-left":
+                            bd.call(bd.getattr(e, "__enter__"))
+                            bd.call(bd.getattr(e, "__exit__"), None, None, None)
+                    q = bd.new(Q, bd.real("x"), ua)
+                    return dict(args=[q, ub], env=dict(x=bd.getattr(bd.getattr(q, "magnitude"), "value"), formula=formula))
+                c.scenario(f"{kind}-scope-{how}:{ua}->{ub}", pre)
+    c.ensures("near(result, (pow10(x / 10) if formula == 'pow10(x / 10)' else (x + 273.15 if formula == 'x + 273.15' else (x + 459.67) * 5 / 9)), 1000)", "same-formula-as-without-the-scope")
+    c.no_raise()
